@@ -144,7 +144,7 @@ def do_import5(agent_dir, prop, rnd="5"):
         shutil.copy(os.path.join(agent_dir, f"demo{n}.py"), os.path.join(d, "demo.py"))
         if os.path.exists(os.path.join(agent_dir, "NOTES.md")):
             shutil.copy(os.path.join(agent_dir, "NOTES.md"), os.path.join(d, "agent_notes.md"))
-        json.dump({"id": sid, "property": prop, "demo_kind": "script", "source": f"round {rnd}: independent sub-agent given the property text, a scratch worktree and the list of changes earlier rounds had already tried; asked for two new kinds of subtle breaking change"}, open(os.path.join(d, "meta.json"), "w"), indent=1)
+        json.dump({"id": sid, "property": prop, "demo_kind": "script", "source": (f"round {rnd}: independent sub-agent given the property text, a scratch worktree and the list of changes earlier rounds had already tried; asked for two new kinds of subtle breaking change" if rnd in ("5", "6") else f"round {rnd}: fresh independent sub-agent given only the property text and its own scratch worktree (nothing from /verif); asked for one change that needs something specific to manifest")}, open(os.path.join(d, "meta.json"), "w"), indent=1)
         print("imported", sid)
 
 
@@ -227,6 +227,9 @@ def main():
         return
     if sys.argv[1] == "import6":
         do_import5(sys.argv[2], sys.argv[3], "6")
+        return
+    if sys.argv[1] == "import7":  # round 7: one change per agent, property text + worktree only
+        do_import5(sys.argv[2], sys.argv[3], "7")
         return
     if sys.argv[1] == "import4":
         do_import4(sys.argv[2], sys.argv[3], sys.argv[4])
